@@ -85,7 +85,10 @@ package protocol
 //@   requires info != nil && "published" in info ==> isType(info["published"], "bool")
 //@   requires info != nil && "id" in info ==> isType(info["id"], "string")
 //@ spec parseOK2(p OperationParser, ns string, buf bytes) bool
+// the unique suffix the parser derives from a request (a function of parser, namespace and bytes, assumed)
+//@ spec parsedSuffix(p OperationParser, ns string, buf bytes) string
 //@ iface OperationParser.Parse
 //@   results op, err
 //@   ensures (err == nil) == parseOK2(this, namespace, operation)
 //@   ensures err == nil ==> op != nil && fresh(op)
+//@   ensures err == nil ==> op.UniqueSuffix == parsedSuffix(this, namespace, operation)
